@@ -18,7 +18,7 @@ def run(rep):
         "EMPTY while the undo functions run, so that a context-aware undo function cannot re-record itself in an enclosing context "
         "(this obligation has a counter-model `stack length 2` on the original code: the nested-context defect, repaired in /repo); "
         "add_cons_vars_to_problem / remove_cons_vars_from_problem to perform the solver call and to register exactly the inverse "
-        "call in the innermost context. That each context-aware operation registers a "
+        "call in the innermost context (for one non-variable object; the column bookkeeping for removed variables is bounded only). That each context-aware operation registers a "
         "correct undo, and that undos compose over whole histories and nestings, is NOT proved: bounded driver (full observable "
         "state incl. the raw GLPK problem snapshotted at __enter__ and compared after __exit__ over operation sequences, nestings, "
         "exits by exception and naturally raising operations)."),
